@@ -109,6 +109,7 @@ type Engine struct {
 	restarts map[int]bool
 	outs     []*tasks.Outcome
 	defBudget int64
+	scale     int64
 	lastRun  int
 	siteHit  map[int32]bool
 	pctChange map[int64]bool
@@ -662,11 +663,24 @@ func KnobsAvailable() []string {
 	return out
 }
 
-// Run executes one world. keepLog keeps the full event log in the result.
+// Run executes one world. keepLog keeps the full event log in the result. A run that ends in
+// "step budget exceeded" is executed again with a budget 40 times larger before it is believed:
+// bounded liveness must not depend on a tight constant (enumeration worlds legitimately need work
+// proportional to their number of models). Both executions are pure functions of the world.
 func Run(t *testing.T, w *world.World, keepLog bool) *Result {
+	res := runOnce(t, w, keepLog, 1)
+	if res.Tool == "" && strings.Contains(res.Signature(), "nontermination") {
+		res2 := runOnce(t, w, keepLog, 40)
+		res2.Probes["budget-exceeded-then-rerun"]++
+		return res2
+	}
+	return res
+}
+
+func runOnce(t *testing.T, w *world.World, keepLog bool, scale int64) *Result {
 	res := &Result{Probes: map[string]int{}, Faults: map[string]int{}}
 	h := fnv.New64a()
-	e := &Engine{w: w, res: res, h: h, hsum: h.Sum64, keepLog: keepLog, defBudget: 5_000_000, lastRun: -1}
+	e := &Engine{w: w, res: res, h: h, hsum: h.Sum64, keepLog: keepLog, defBudget: 5_000_000 * scale, lastRun: -1, scale: scale}
 	e.restarts = map[int]bool{}
 	for _, r := range w.Restarts {
 		e.restarts[r] = true
@@ -723,7 +737,7 @@ func (e *Engine) bubble() {
 			e.rng = world.NewRng(1)
 			e.burstOn = false
 			e.outs = make([]*tasks.Outcome, len(w.Tasks))
-			e.defBudget = 5_000_000
+			e.defBudget = 5_000_000 * e.scale
 			e.startTop(i)
 			save := w.Sched
 			w.Sched = world.Sched{Strategy: "serial"}
@@ -749,7 +763,7 @@ func (e *Engine) bubble() {
 	e.lastRun = -1
 	e.rng = world.NewRng(w.Sched.Seed)
 	e.outs = make([]*tasks.Outcome, len(w.Tasks))
-	e.defBudget = 5_000_000
+	e.defBudget = 5_000_000 * e.scale
 	e.pctChange = map[int64]bool{}
 	if w.Sched.Strategy == "pct" {
 		for i := 0; i < w.Sched.PCTDepth; i++ {
@@ -759,7 +773,7 @@ func (e *Engine) bubble() {
 	for i := range w.Tasks {
 		t := e.startTop(i)
 		if solo {
-			t.budget = 50*soloSteps[i] + 10_000
+			t.budget = (50*soloSteps[i] + 10_000) * e.scale
 		}
 	}
 	e.runPhase()
